@@ -155,6 +155,46 @@ def is_core(sc):
     return again or both
 
 
+def pins(scs, per=2):
+    """witnesses always kept when a tier samples (by what the scenario contains, nothing is
+    judged here): a configuration that lists a child resource twice and is stopped later; a
+    sync hook with etag.cacheTimeoutSeconds but no cacheCleanupSeconds; a running controller
+    whose parent resource is changed to one without CRD / without status subresource."""
+    def dup_stop(sc):
+        cur = {}
+        for st in sc["steps"]:
+            t, n, s = st["op"]["t"], st["op"]["n"], st["op"]["s"]
+            if t in ("update", "delete") and cur.get(n):
+                return True
+            if t in ("create", "update"):
+                k = sc["specs"][s]["kids"]
+                cur[n] = len(k) != len(set(k))
+            if t == "delete":
+                cur[n] = False
+        return False
+
+    def etag(sc):
+        return any(sp["hooks"] == "set" and sp["sync"]["etag"] == "timeout" and (sp["sync"]["url"] or (sp["sync"]["svc"] == "ok" and sp["sync"]["path"]))
+                   for sp in sc["specs"].values())
+
+    def stale(sc):
+        ran = {}
+        for st in sc["steps"]:
+            t, n, s = st["op"]["t"], st["op"]["n"], st["op"]["s"]
+            if t == "update" and ran.get(n) and sc["specs"][s]["par"] in ("ghost", "ns"):
+                return True
+            if t in ("create", "update"):
+                ran[n] = st["want"][n - 1]["c"] == "must"
+            if t == "delete":
+                ran[n] = False
+        return False
+
+    out = []
+    for pred in (dup_stop, etag, stale):
+        out += [s for s in scs if pred(s)][:per]
+    return out
+
+
 # --------------------------------------------------------------------------------------
 # replay
 
